@@ -645,3 +645,117 @@ def run_lock():
     f = open(os.path.join(BUILD, ".runlock"), "w")
     fcntl.flock(f, fcntl.LOCK_SH if os.path.realpath(REPO) == "/repo" else fcntl.LOCK_EX)
     return f
+
+
+# --------------------------------------------------------------------------- configuration / environment matrix
+CONFIG_MATRIX = [            # (tag, config file lines, extra environment)
+    ("base-currency=usd", ["base-currency = usd"], {}),
+    ("base-currency=gbp", ["base-currency = gbp"], {}),
+    ("precision=0", ["precision = 0"], {}),
+    ("precision=4", ["precision = 4"], {}),
+    ("precision=17", ["precision = 17"], {}),
+    ("empty config file", [""], {}),
+    ("PYTHONINTMAXSTRDIGITS=1000", None, {"PYTHONINTMAXSTRDIGITS": "1000"}),
+]
+_MATRIX_DRIVER = r'''
+import sys, json
+sys.path.insert(0, sys.argv[1])
+import common as C
+out = []
+for t in json.loads(sys.argv[2]):
+    try:
+        o = C.observe(t)
+        out.append(dict(text=t, status=o.get("status"), value=o.get("value"), escaped=o.get("escaped"), err=(o.get("err") or "")[:120],
+                        out_empty=(o.get("out") or "") == "", err_empty=(o.get("err") or "").strip() == ""))
+    except BaseException as x:
+        out.append(dict(text=t, status=None, value=None, escaped="harness:" + type(x).__name__, err=str(x)[:120], out_empty=True, err_empty=True))
+print("\n@@MATRIX@@" + json.dumps(out))
+'''
+_NUM_ATOM = re.compile(r"I:-?\d+|F:-?\d+/\d+|X:-?0x[0-9a-f.]+p[+-]?\d+|X:-?(?:inf|nan)")
+
+
+def enc_close(a, b, rel=1e-9):
+    """two canonical value texts denote the same value: same structure, numbers equal or (where a float is involved) within rel"""
+    from fractions import Fraction
+    if a == b:
+        return True
+    if a is None or b is None:
+        return False
+    if _NUM_ATOM.sub("#", a) != _NUM_ATOM.sub("#", b) and not (_NUM_ATOM.fullmatch(a) and _NUM_ATOM.fullmatch(b)):
+        # allow int/fraction/float kinds to differ only at the top level of a plain number
+        return False
+
+    def num(t):
+        if t.startswith("I:"):
+            return Fraction(int(t[2:])), True
+        if t.startswith("F:"):
+            n, d = t[2:].split("/")
+            return Fraction(int(n), int(d)), True
+        try:
+            return Fraction(float.fromhex(t[2:])), False
+        except (ValueError, OverflowError):
+            return None, False
+    for x, y in zip(_NUM_ATOM.findall(a), _NUM_ATOM.findall(b)):
+        (p, pe), (q, qe) = num(x), num(y)
+        if p is None or q is None:
+            return False
+        if p == q:
+            continue
+        if pe and qe:
+            return False
+        if abs(p - q) > rel * max(abs(p), abs(q)):
+            return False
+    return True
+
+
+def config_matrix(rep, rundir, prop, texts, configs=None, rel=1e-9, what="the value does not depend on this setting"):
+    """Evaluate `texts` in fresh interpreters under other configuration files / environments and compare with the
+    default start-up (empty HOME): same status, same value (floats within rel), well-formed streams, nothing escapes.
+    The implementation is compared with itself; the caller chooses texts whose value must not depend on the setting."""
+    import subprocess, json as _json
+    configs = CONFIG_MATRIX if configs is None else configs
+    harness = os.path.dirname(os.path.abspath(__file__))
+    root = tempfile.mkdtemp(prefix="matrix-", dir=rundir)
+
+    def run(tag, lines, extra):
+        home = os.path.join(root, re.sub(r"\W+", "_", tag))
+        os.makedirs(os.path.join(home, ".config", "ka"), exist_ok=True)
+        if lines is not None:
+            open(os.path.join(home, ".config", "ka", "config"), "w").write("\n".join(lines) + ("\n" if lines and lines != [""] else ""))
+        env = {k: v for k, v in os.environ.items() if not k.startswith(("XDG_", "PYTHON"))}
+        env.update(HOME=home, PYTHONPATH=SRC, PYTHONHASHSEED="0", PYTHONDONTWRITEBYTECODE="1", KA_REPO=REPO, MPLBACKEND="Agg")
+        env.update(extra)
+        try:
+            p = subprocess.run(["/venv/bin/python", "-c", _MATRIX_DRIVER, harness, _json.dumps(list(texts))], env=env, cwd=home,
+                               stdout=subprocess.PIPE, stderr=subprocess.PIPE, timeout=600)
+            s = p.stdout.decode("utf-8", "replace")
+            i = s.rfind("@@MATRIX@@")
+            if i < 0:
+                return None, (p.stderr.decode("utf-8", "replace")[-400:] or s[-200:])
+            return _json.loads(s[i + len("@@MATRIX@@"):]), None
+        except subprocess.TimeoutExpired:
+            return None, "timeout"
+    base, err = run("default", None, {})
+    if base is None:
+        rep.violation(dict(kind="harness-matrix"), "the default start-up could not be observed: %s" % err, dict(error=err), found_input=False)
+        return 0
+    n = 0
+    with ThreadPoolExecutor(4) as ex:
+        results = list(ex.map(lambda c: run(*c), configs))
+    for (tag, lines, extra), (res, err) in zip(configs, results):
+        if res is None:
+            rep.violation(dict(kind="start-up-fails", config=tag), "%s: with %s the interpreter does not start or evaluate: %s" % (prop, tag, (err or "")[-300:]),
+                          dict(config=tag, config_lines=lines, env=extra, error=err))
+            continue
+        for b, r in zip(base, res):
+            n += 1
+            same = (b["status"] == r["status"] and b.get("escaped") == r.get("escaped")
+                    and (enc_close(b["value"], r["value"], rel) if b["status"] == 0 else True)
+                    and b["out_empty"] == r["out_empty"] and b["err_empty"] == r["err_empty"])
+            if not same:
+                rep.violation(dict(kind="depends-on-configuration", config=tag),
+                              "%s fails (%s): %s gives status %r value %s%s under the default start-up, and status %r value %s%s with %s"
+                              % (prop, what, b["text"][:160], b["status"], str(b["value"])[:120], (" escaped " + b["escaped"]) if b.get("escaped") else "",
+                                 r["status"], str(r["value"])[:120], (" escaped %s (%s)" % (r["escaped"], r["err"])) if r.get("escaped") else "", tag),
+                              dict(text=b["text"], config=tag, config_lines=lines, env=extra, default=b, other=r))
+    return n
